@@ -136,7 +136,7 @@ mod imp {
 
     zoo_module!(
         ZOO_SRC,
-        r"Zoo DEFINITIONS AUTOMATIC TAGS ::=
+        r#"Zoo DEFINITIONS AUTOMATIC TAGS ::=
 BEGIN
 Ints ::= SEQUENCE {
   fu8  INTEGER (0..255),
@@ -179,7 +179,18 @@ Blank ::= SEQUENCE { a INTEGER (0..255) OPTIONAL, b UTF8String OPTIONAL, l SEQUE
 ListBlank ::= SEQUENCE { items SEQUENCE OF Blank, x INTEGER (0..255) }
 ChBlank ::= CHOICE { b Blank, i INTEGER (0..255) }
 SeqBlank ::= SEQUENCE { r Blank, o Blank OPTIONAL, c ChBlank, x BOOLEAN }
-END"
+Defs ::= SEQUENCE {
+  name UTF8String, retries INTEGER (0..255) DEFAULT 3, neg INTEGER (-128..127) DEFAULT -5, flag BOOLEAN DEFAULT TRUE,
+  label UTF8String DEFAULT "x", col Color DEFAULT green, port INTEGER (0..65535),
+  big INTEGER (0..9223372036854775807) DEFAULT 1000000, note UTF8String OPTIONAL
+}
+DefSet ::= SET { retries INTEGER (0..255) DEFAULT 3, flag BOOLEAN DEFAULT TRUE, opt INTEGER (0..255) OPTIONAL,
+  label UTF8String DEFAULT "x", req BOOLEAN }
+DefZero ::= SEQUENCE { retries INTEGER (0..255) DEFAULT 0, flag BOOLEAN DEFAULT FALSE, col Color DEFAULT red, x INTEGER (0..255) }
+DefInner ::= SEQUENCE { n INTEGER (0..255) DEFAULT 7, s UTF8String DEFAULT "d", b BOOLEAN DEFAULT TRUE }
+DefCh ::= CHOICE { d DefInner, i INTEGER (0..255) }
+DefNest ::= SEQUENCE { items SEQUENCE OF DefInner, c DefCh, o DefInner OPTIONAL }
+END"#
     );
 
     mod bad {
@@ -375,6 +386,13 @@ END";
     zv_struct!(ListBlank { items, x });
     zv_choice!(ChBlank { B = 0, I = 1 });
     zv_struct!(SeqBlank { r, o, c, x });
+    zv_struct!(Defs { name, retries, neg, flag, label, col, port, big, note });
+    zv_struct!(DefSet { retries, flag, opt, label, req });
+    // no string component: the compiler front end rejects `UTF8String DEFAULT ""` (empty string literal)
+    zv_struct!(DefZero { retries, flag, col, x });
+    zv_struct!(DefInner { n, s, b });
+    zv_choice!(DefCh { D = 0, I = 1 });
+    zv_struct!(DefNest { items, c, o });
     zv_struct!(Nested { ll, x });
     zv_choice!(ChList { L = 0, I = 1 });
 
@@ -495,6 +513,12 @@ END";
                 23 => $f::<ListBlank>($($arg),*),
                 24 => $f::<ChBlank>($($arg),*),
                 25 => $f::<SeqBlank>($($arg),*),
+                26 => $f::<Defs>($($arg),*),
+                27 => $f::<DefSet>($($arg),*),
+                28 => $f::<DefZero>($($arg),*),
+                29 => $f::<DefInner>($($arg),*),
+                30 => $f::<DefCh>($($arg),*),
+                31 => $f::<DefNest>($($arg),*),
                 _ => vec![-1],
             }
         };
